@@ -53,12 +53,36 @@ func TestDriveAuth(t *testing.T) {
 	t.Logf("%d histories in %v", len(hs), time.Since(t0))
 }
 
+// deliver2Args: one transaction with two messages signed by S only: message K1 in S's own name and message K2 in
+// C's name (creator = named = C); Ord = 1: the honest message first, 2: the message in C's name first.
+type deliver2Args struct {
+	K1  string `json:"k1"`
+	K2  string `json:"k2"`
+	S   int    `json:"s"`
+	C   int    `json:"c"`
+	Ord int    `json:"ord"`
+}
+
+// kindOf: the kind(s) whose objects the world has to hold ("k1+k2" for a two-message transaction; the batch
+// preparation has to precede the pool transfers, so a batch kind goes first).
 func kindOf(steps []drv.Step) string {
 	for _, s := range steps {
 		if s.Act == "Deliver" {
 			var a deliverArgs
 			if json.Unmarshal(s.Args, &a) == nil {
 				return a.Kind
+			}
+		}
+		if s.Act == "Deliver2" {
+			var a deliver2Args
+			if json.Unmarshal(s.Args, &a) == nil {
+				if a.K1 == a.K2 {
+					return a.K1
+				}
+				if a.K1 == "SkSendToRemote" || a.K1 == "SkCancelSendToRemote" {
+					return a.K2 + "+" + a.K1
+				}
+				return a.K1 + "+" + a.K2
 			}
 		}
 	}
@@ -132,7 +156,11 @@ func runHistory(t *testing.T, em *drv.Emitter, h drv.History) {
 		t.Fatalf("history %d: idle block: %v", h.H, err)
 	}
 	_, idle := w.encode(in, q0, w.snap(false))
-	em.Emit(map[string]any{"h": h.H, "i": 0, "act": "Init", "args": map[string]any{"kind": kind}, "g": w.grantObs(), "prep": w.prepErr, "idle": idle,
+	kinds := []string{}
+	if kind != "" {
+		kinds = strings.Split(kind, "+")
+	}
+	em.Emit(map[string]any{"h": h.H, "i": 0, "act": "Init", "args": map[string]any{"kind": kind}, "kinds": kinds, "g": w.grantObs(), "prep": w.prepErr, "idle": idle,
 		"ncomp": len(compNames)})
 	for i, stp := range steps {
 		ev := map[string]any{"h": h.H, "i": i + 1, "act": stp.Act, "res": "fail", "cs": "", "code": 0, "cls": "", "log": ""}
@@ -215,6 +243,49 @@ func runHistory(t *testing.T, em *drv.Emitter, h drv.History) {
 			ev["gpost"] = w.grantObs()
 			ev["suspect"] = map[string]any{"A": w.suspects(pre, post, pA), "B": w.suspects(pre, post, pB)}
 			em.Emit(ev)
+		case "Deliver2":
+			var a deliver2Args
+			if err := json.Unmarshal(stp.Args, &a); err != nil {
+				t.Fatal(err)
+			}
+			ev["args"] = a
+			ev["g"] = w.grantObs()
+			ev["via"] = "tx"
+			pre := w.snap(true)
+			var buildErr string
+			var msgs []sdk.Msg
+			func() {
+				defer func() {
+					if r := recover(); r != nil {
+						buildErr = fmt.Sprint(r)
+					}
+				}()
+				honest := w.build(a.K1, a.S, a.S, a.S)
+				other := w.build(a.K2, a.S, a.C, a.C) // signed by S only, in C's name
+				if a.Ord == 1 {
+					msgs = []sdk.Msg{honest, other}
+				} else {
+					msgs = []sdk.Msg{other, honest}
+				}
+			}()
+			if buildErr != "" {
+				ev["cls"], ev["log"] = "build", firstLine(buildErr)
+			} else if tx, err := e.SignTxWith([]*env.Account{w.acc(a.S)}, msgs...); err != nil {
+				ev["cls"], ev["log"] = "build", firstLine(err.Error())
+			} else {
+				r, err := e.RunTx(tx)
+				if err != nil {
+					blockFail(em, ev, err)
+					return
+				}
+				fill(ev, r)
+			}
+			post := w.snap(true)
+			obs, chg := w.encode(in, pre, post)
+			ev["obs"], ev["chg"] = obs, chg
+			ev["gpost"] = w.grantObs()
+			ev["suspect"] = map[string]any{"A": w.suspects(pre, post, pA), "B": w.suspects(pre, post, pB)}
+			em.Emit(ev)
 		default:
 			t.Fatalf("history %d: unknown action %s", h.H, stp.Act)
 		}
@@ -236,7 +307,7 @@ func blockFail(em *drv.Emitter, ev map[string]any, err error) {
 	if _, ok := ev["g"]; !ok {
 		ev["g"] = map[string]int{"ab": 0, "ba": 0}
 	}
-	if ev["act"] == "Deliver" {
+	if ev["act"] == "Deliver" || ev["act"] == "Deliver2" {
 		ev["obs"], ev["chg"], ev["suspect"], ev["gpost"] = map[string]any{}, []string{}, map[string]any{}, map[string]int{"ab": 0, "ba": 0}
 	}
 	em.Emit(ev)
@@ -331,6 +402,6 @@ func runRegistry(em *drv.Emitter, h drv.History) {
 	for _, k := range ks {
 		table = append(table, map[string]string{"kind": k, "url": kindURL[k]})
 	}
-	em.Emit(map[string]any{"h": h.H, "i": 0, "act": "Init", "args": map[string]any{"kind": ""}, "g": map[string]int{"ab": 0, "ba": 0}, "prep": "", "idle": []string{}, "ncomp": len(compNames)})
+	em.Emit(map[string]any{"h": h.H, "i": 0, "act": "Init", "args": map[string]any{"kind": ""}, "kinds": []string{}, "g": map[string]int{"ab": 0, "ba": 0}, "prep": "", "idle": []string{}, "ncomp": len(compNames)})
 	em.Emit(map[string]any{"h": h.H, "i": 1, "act": "Registry", "args": map[string]any{}, "reg": reg, "routed": routed, "table": table, "comps": compNames})
 }
